@@ -17,6 +17,11 @@ RULE = ("each case = one short run: one channel with ARES_OPT_EVENT_THREAD (epol
 
 
 def own(key):
+    # "the per-request guarantees (bounded completion time) still hold": the two timer situations that only exist
+    # through concurrency - a client thread's request against a sleeping event thread, a timeout against a stream
+    # of events - are this property's as much as C07's
+    if key.startswith("timer:et:timeout-late:busy-traffic") or key.startswith("timer:et:retry-late:busy-backoff"):
+        return PROP
     if key.startswith("timer:et:"):
         return "C07"
     return PROP
@@ -27,6 +32,13 @@ def run(tier, seed, scale=1.0):
     n = max(8, int((48 if tier == "quick" else 900) * scale))
     res = et.explore("stress", seed, n, "tsan", opts=stress_opts(), workers=8)
     et.foreign_listed_to_inconclusive(res, own, PROP)
+    # the scripted timer scenarios (profile `timers`, AddressSanitizer build: they are about time, not about races)
+    n2 = max(54, int((54 if tier == "quick" else 270) * scale))
+    r2 = et.explore("timers", seed, n2, "asan", workers=8)
+    r2.counters = {k: v for k, v in r2.counters.items() if k.startswith("timers.") or k.startswith("signals.") or k == "case.with_signals"}
+    r2.fps = set()
+    et.foreign_listed_to_inconclusive(r2, own, PROP)
+    res.merge(r2)
     return common.finish(PROP, tier, seed, "exploration", res, own, RULE, t0,
                          min_conclusive=max(4, int(30 * min(1.0, scale))),
                          assumptions=["real threads: a run is one sample of the schedules its seed allows, not a replay",
